@@ -40,11 +40,17 @@ def reads_ok(store):
     return None
 
 
-def build_state(ctx, r, n_cmds, weights=None, binary=None):
-    """a store brought to a CLI-reachable state by a short seeded history (returns store, trace)"""
+def build_state(ctx, r, n_cmds, weights=None, binary=None, big=0):
+    """a store brought to a CLI-reachable state by a short seeded history (returns store, view, trace).
+    big=N first adds one plan of N tasks with ~600-byte bodies, so the log spans several 64 KiB blocks"""
     st = cmdrun.Store(binary or ctx.ergo_verif, ctx.go)
     v = gen.View()
     trace = []
+    if big:
+        doc = {"title": "bulk", "tasks": [{"title": "bulk %d" % i, "body": ("filler %d " % i) * 60} for i in range(big)]}
+        env = {"VERIF_RAND": str(r.next() % (1 << 40))}
+        st.exec(["--json", "plan"], json.dumps(doc).encode(), env=env)
+        trace.append({"argv": ["--json", "plan"], "stdin": "<plan with %d tasks, ~600-byte bodies>" % big, "env": env, "bulk": big})
     w = weights or {"new_task": 30, "new_epic": 8, "set": 30, "claim_oldest": 6, "sequence": 12, "plan": 4, "prune_yes": 2}
     for i in range(n_cmds):
         req, agent = gen.gen_request(r, v, w)
@@ -69,6 +75,9 @@ def multi_event_command(r, v):
                ("new-task{state}", ["--json", "--agent", "me", "new", "task"], json.dumps({"title": "m", "state": "blocked"}).encode())]
     if todo:
         t = r.pick(todo)
+        big_body = ("a fairly long paragraph of result notes %d. " % r.n(1000)) * (1800 + r.n(1500))     # 80–150 KB: more than one 64 KiB buffer
+        choices += [("set{big-body,claim,state}", ["--json", "set", t], json.dumps({"body": big_body, "claim": "k9", "state": "doing"}).encode()),
+                    ("set{big-body,claim,state}", ["--json", "set", t], json.dumps({"title": "T big", "body": big_body, "claim": "k9", "state": "error"}).encode())]
         choices += [("claim-oldest", ["--json", "--agent", "k1", "claim"], None),
                     ("claim-id", ["--json", "--agent", "k2", "claim", t], None),
                     ("set{title,body,state}", ["--json", "set", t], json.dumps({"title": "T2", "body": "B2", "state": "done"}).encode()),
